@@ -1945,9 +1945,19 @@ def sort_tables_and_constraints(
                     if filter_fn is None or filter_fn(fkc) is not False
                 ]
                 remaining_fkcs.update(can_remove)
+                # a constraint that can't be removed, referring to the same
+                # table as one that can, still needs the dependency
+                still_dependent_on = {
+                    fkc.referred_table
+                    for fkc in table.foreign_key_constraints
+                    if fkc not in remaining_fkcs
+                }
                 for fkc in can_remove:
                     dependent_on = fkc.referred_table
-                    if dependent_on is not table:
+                    if (
+                        dependent_on is not table
+                        and dependent_on not in still_dependent_on
+                    ):
                         mutable_dependencies.discard((dependent_on, table))
         candidate_sort = list(
             topological.sort(
